@@ -103,7 +103,7 @@ def build_drivers():
     return rc, out
 
 # ------------------------------------------------------------------------------------------------ implementation side
-KIND = {"Integer": 1, "Boolean": 2, "String": 3, "List": 4, "Dict": 5, "IO": 7, "ErrorValue": 8, "Nil": 9, "Bytes": 11, "Float": 12, "Complex": 10}
+KIND = {"Integer": 1, "Boolean": 2, "String": 3, "List": 4, "Dict": 5, "IO": 7, "ErrorValue": 8, "Nil": 9, "Bytes": 11, "Float": 12, "Complex": 13}
 class _TO(Exception): pass
 def _alarm(*a): raise _TO()
 
@@ -125,7 +125,9 @@ def canon_float(x):
     while m % 2 == 0: m //= 2; e += 1
     return f"F{m}p{e}"
 _FL = re.compile(r"(?<![\w.'])-?(?:\d+\.\d+(?:e[+-]?\d+)?|\d+e[+-]?\d+|inf|nan)(?![\w.'])")
-def canon_floats(s): return _FL.sub(lambda m: canon_float(float(m.group(0))), s)
+# the imaginary part of a printed complex number: a real directly followed by "i" (its sign is printed separately: "-" + str(abs(im)))
+_FLI = re.compile(r"(?<![\w.'])(?:\d+\.\d+(?:e[+-]?\d+)?|\d+e[+-]?\d+|inf|nan)(?=i(?!\w))")
+def canon_floats(s): return _FLI.sub(lambda m: canon_float(float(m.group(0))), _FL.sub(lambda m: canon_float(float(m.group(0))), s))
 
 def host_site(e):
     fr = [f for f in traceback.extract_tb(e.__traceback__) if "/pbhhg_py/" in f.filename]
